@@ -74,20 +74,32 @@ def CONCAT(*parts):
 
 
 def SAME_OBJ(a, b):
+    """object identity (`is`); an Optional operand must be present"""
     if smt():
-        return a.ref == b.ref
+        from pyvc.values import OptV
+
+        guards = []
+        for x in (a, b):
+            if isinstance(x, OptV):
+                guards.append(NOT(IS_NONE(x)))
+        a, b = (VAL(a) if isinstance(a, OptV) else a), (VAL(b) if isinstance(b, OptV) else b)
+        if not isinstance(a, Obj) or not isinstance(b, Obj):
+            return False
+        return AND(*(guards + [a.ref == b.ref]))
     return a is b
 
 
 def SAME_SEQ(a, b):
     """the same elements in the same order (list(x) copies)"""
     if smt():
+        from pyvc.loops import mk_forall
+
         if isinstance(a, SymSeq) and isinstance(b, SymSeq):
             i = z3.FreshConst(z3.IntSort(), "i")
             return z3.And(a.length == b.length,
-                          z3.ForAll([i], z3.Implies(z3.And(0 <= i, i < a.length), z3.Select(a.arr, i) == z3.Select(b.arr, i)),
+                          mk_forall([i], z3.Implies(z3.And(0 <= i, i < a.length), z3.Select(a.arr, i) == z3.Select(b.arr, i)),
                                     patterns=[z3.Select(a.arr, i)]))
-        raise TypeError("SAME_SEQ of %r, %r" % (a, b))
+        return False
     return len(a) == len(b) and all(x is y for x, y in zip(a, b))
 
 
@@ -116,14 +128,29 @@ def READ(d, lookup, visitors, allow):
 
 def IS_READ(result, d, lookup, visitors, allow):
     if smt():
-        return result.ref == READ(d, lookup, visitors, allow)
+        from pyvc.values import OptV
+
+        r = result.val if isinstance(result, OptV) else result
+        if not isinstance(r, Obj):
+            return False
+        return AND(NOT(IS_NONE(result)), r.ref == READ(d, lookup, visitors, allow))
     return result == READ(d, lookup, visitors, allow)
 
 
 def SAME_OPT_OBJ(a, b):
     """identity of two Optional[object] values (`is`)"""
     if smt():
-        return OR(AND(IS_NONE(a), IS_NONE(b)), AND(NOT(IS_NONE(a)), NOT(IS_NONE(b)), lambda: VAL(a).ref == VAL(b).ref))
+        from pyvc.values import OptV
+
+        def parts(x):
+            if isinstance(x, OptV):
+                return x.is_none, x.val
+            return (x is None), x
+
+        na, va = parts(a)
+        nb, vb = parts(b)
+        same = va.ref == vb.ref if isinstance(va, Obj) and isinstance(vb, Obj) else False
+        return OR(AND(na, nb), AND(NOT(na), NOT(nb), same))
     return a is b
 
 
@@ -351,6 +378,22 @@ def FINALIZED(builder):
     return None
 
 
+def _ref_of(x):
+    """reference term of an object-valued result; None when the value is not an object (e.g. a concrete None)"""
+    from pyvc.values import OptV
+
+    if isinstance(x, OptV):
+        x = x.val
+    return x.ref if isinstance(x, Obj) else None
+
+
+def IS_FINALIZED(result, builder):
+    if smt():
+        r = _ref_of(result)
+        return False if r is None else AND(NOT(IS_NONE(result)), r == FINALIZED(builder))
+    return True
+
+
 @contract(BUILDER + ".__init__", props=P)
 class _BuilderInit:
     params = dict(definition=ObjOf(READABLE), lookup_definitions=SeqOf(ObjOf(READABLE)),
@@ -377,7 +420,7 @@ class _Finalize:
     assumed = "DataTypeBuilder.finalize: subject of C03/C05; here only `returns a composite or raises`"
 
     def post(s):
-        return {"tag": s.result.ref == FINALIZED(s.self) if smt() else True}
+        return {"tag": IS_FINALIZED(s.result, s.self)}
 
 
 @contract(PARSER + "parse", props=["C09", "C03", "C13"])
@@ -445,12 +488,15 @@ class _Read:
 
         parses, fins, texts = CALLS("_parser.parse"), CALLS("DataTypeBuilder.finalize"), CALLS("DSDLDefinition.text")
         inits = CALLS("DataTypeBuilder.__init__")
+        labels = ["builder-for-this-definition", "builder-lookup-excludes-self", "builder-visitors-and-flag",
+                  "parses-own-text-into-builder", "returns-finalized-builder"]
         if not parses and not fins and not inits:
-            return {"protocol-only-on-miss": hit if not isinstance(hit, bool) else z3.BoolVal(hit)}
+            # no builder was made: only allowed on a cache hit
+            return {k: (hit if not isinstance(hit, bool) else z3.BoolVal(hit)) for k in labels}
         ok = (len(parses) == 1 and len(fins) == 1 and len(texts) == 1 and len(inits) == 1
               and inits[0]["index"] < parses[0]["index"] < fins[0]["index"] and texts[0]["index"] < parses[0]["index"])
         if not ok:
-            return {"protocol-order": z3.BoolVal(False)}
+            return {k: z3.BoolVal(False) for k in labels}
         builder, a = inits[0]["ns"].self, inits[0]["ns"]
         d = s.self
         return {
@@ -463,7 +509,7 @@ class _Read:
                                                 SAME_OBJ(texts[0]["ns"].self, d),
                                                 EQ(parses[0]["ns"].text, texts[0]["result"]),
                                                 EQ(parses[0]["ns"].strict, s.strict)),
-            "returns-finalized-builder": AND(SAME_OBJ(fins[0]["ns"].self, builder), s.result.ref == FINALIZED(builder)),
+            "returns-finalized-builder": AND(SAME_OBJ(fins[0]["ns"].self, builder), IS_FINALIZED(s.result, builder)),
         }
 
     # whenever an exception escapes, the cache is as it was (never a half-built type), identity untouched
